@@ -134,6 +134,25 @@ pub fn judge(sc: &Scenario, rep: &LoopReport) -> Judged {
                     j.probes.add("rem_zero", 1);
                 }
                 j.distinct.push(hash_str(&format!("{}|{}|{}|{}", side, rem, inc, x.line.split_whitespace().filter(|t| t.ends_with("time") || t.ends_with("inc")).collect::<Vec<_>>().join(","))));
+                // the clock as the GUI sees it: virtual time from the go to its bestmove must fit
+                // in the mover's remaining time (plus what C07 allows a search to overrun its
+                // own deadline: 4096 nodes and a few clock reads). Only in sims whose searches
+                // really run (cost model, no forced expiry) and that were not cut by the step cap.
+                if sc.forced_all.is_none() && x.ns_after > 0 && x.output.iter().any(|l| l.starts_with("bestmove")) {
+                    let think_ns = x.ns_after.saturating_sub(x.ns_before) as u128;
+                    let allowance = crate::c07::B as u128 * sc.cost_node_ns as u128 + 1_000_000;
+                    j.probes.add("think_times_measured", 1);
+                    if rec.deadline_passed_at.is_some() {
+                        j.probes.add("think_times_measured_on_searches_stopped_by_the_clock", 1);
+                        j.probes.max("max_nodes_in_a_clock_stopped_search", rec.nodes);
+                    }
+                    if think_ns > rem as u128 * 1_000_000 + allowance {
+                        j.violations.push((
+                            "think_time_exceeds_remaining".into(),
+                            format!("'{}': {} to move has {} ms (+{} inc), budget armed {:?} ms, but bestmove came after {} ms of virtual time ({} nodes)", x.line, side, rem, inc, rec.limit.map(|l| l.as_millis()), think_ns / 1_000_000, rec.nodes),
+                        ));
+                    }
+                }
                 match rec.limit {
                     None => j.violations.push((
                         "no_budget".into(),
@@ -214,8 +233,11 @@ fn go_line(rng: &mut Rng, white_to_move: bool, rem: u64, inc: u64, orem: u64, oi
     s
 }
 
-pub fn generate(seed: u64) -> Scenario {
+pub fn generate(seed: u64, long: bool) -> Scenario {
     let mut rng = Rng::new(seed);
+    if long {
+        return generate_long(&mut rng);
+    }
     let forced = if rng.chance(4, 5) { Some(1) } else { None };
     let mut sc = Scenario {
         lines: vec![],
@@ -270,6 +292,55 @@ pub fn generate(seed: u64) -> Scenario {
         if rng.chance(1, 10) {
             clocks[me] = clock_value(&mut rng);
         }
+    }
+    sc.lines.push("quit".into());
+    sc
+}
+
+/// A few clocked moves whose searches really run for 10^5..10^6 nodes (1-5 us per node):
+/// what the engine does with its budget *during* a long think (extending it, re-arming it)
+/// shows only in the time at which the answer comes.
+fn generate_long(rng: &mut Rng) -> Scenario {
+    let mut sc = Scenario {
+        lines: vec![],
+        twins: vec![],
+        key_seed: rng.next_u64(),
+        forced_all: None,
+        cost_node_ns: rng.log_range(1_000, 5_000),
+    };
+    let start = loop {
+        let p = gen::random_position(rng);
+        if p.is_valid() && p.legal_moves().len() >= 8 && p.piece_count() >= 12 {
+            break p;
+        }
+    };
+    let root = format!("fen {}", crate::sworld::fen_for_search(&start));
+    let plies = rng.range(1, 3) as usize;
+    let (moves, positions) = gen::playout(rng, &start, plies, 1);
+    if rng.chance(1, 2) {
+        sc.lines.push("ucinewgame".into());
+    }
+    for (k, p) in positions.iter().enumerate() {
+        if p.legal_moves().is_empty() {
+            break;
+        }
+        let mut l = format!("position {}", root);
+        if k > 0 {
+            l.push_str(" moves ");
+            l.push_str(&gen::moves_uci(&moves[..k]).join(" "));
+        }
+        sc.lines.push(l);
+        // a time scramble with an increment (budget close to the whole clock), or a
+        // comfortable clock without one
+        let (rem, inc, with_inc) = if rng.chance(2, 3) {
+            let rem = rng.range(200, 2_500);
+            (rem, rem + rng.range(0, rem), true)
+        } else {
+            (rng.range(10_000, 50_000), 0, rng.chance(1, 2))
+        };
+        let orem = clock_value(rng);
+        let oinc = rng.range(0, 5_000);
+        sc.lines.push(go_line(rng, p.white_to_move, rem, inc, orem, oinc, with_inc));
     }
     sc.lines.push("quit".into());
     sc
@@ -367,7 +438,9 @@ pub fn run(ctx: &Ctx) -> i32 {
     let _ = orders;
     let rep = run_batch(sims, ctx.workers, |i| {
         let seed = derive(ctx.seed, "C12", i);
-        let sc = generate(seed);
+        // one sim in twenty thinks long (hundreds of thousands of nodes per move)
+        let long = i % 20 == 11;
+        let sc = generate(seed, long);
         let rep = run_explicit(&sc);
         let j = judge(&sc, &rep);
         let mut res = SimResult::default();
@@ -391,6 +464,12 @@ pub fn run(ctx: &Ctx) -> i32 {
                 }
             }
         }
+        if long {
+            res.probes.add("long_think_sims", 1);
+            if matches!(rep.outcome, Outcome::Aborted(_)) {
+                res.probes.add("long_think_sims_cut_by_step_cap", 1);
+            }
+        }
         res.violations = violations_of(&sc, &rep, &j, i, seed);
         if i < 3 {
             res.sample = Some(json!({"lines": sc.lines.iter().take(6).collect::<Vec<_>>(), "commands": sc.lines.len(), "twins": sc.twins.len(), "forced_all": sc.forced_all}));
@@ -399,7 +478,7 @@ pub fn run(ctx: &Ctx) -> i32 {
     });
     let ev = Evidence {
         level: "exploration",
-        rule: "One sim = one simulated match fragment (1-14 plies from startpos or a playout FEN, both colours to move): per ply `position ... moves ...` and `go wtime W btime B [winc I binc J]` with the tokens in a seeded order, clock values from 0 / 1 ms / below the 5 s reserve / around it / seconds / minutes / hours, increments 0 / small / large / equal to or larger than the remaining time; the mover's clock is then debited and credited like a GUI does. Most sims let every search expire at its first clock read (the budget is observed where the real go handler arms the real timer, so the search itself is irrelevant); one in five runs real searches under a cost model. Each go is followed by a twin with the opponent's clock and increment replaced and the tokens permuted. Oracle: a budget is armed; budget <= mover's remaining time; < when any time remains; twin arms the same budget. Evaluations = clocked go commands judged; distinct by (side, remaining, increment, token order).".into(),
+        rule: "One sim = one simulated match fragment (1-14 plies from startpos or a playout FEN, both colours to move): per ply `position ... moves ...` and `go wtime W btime B [winc I binc J]` with the tokens in a seeded order, clock values from 0 / 1 ms / below the 5 s reserve / around it / seconds / minutes / hours, increments 0 / small / large / equal to or larger than the remaining time; the mover's clock is then debited and credited like a GUI does. Most sims let every search expire at its first clock read (the budget is observed where the real go handler arms the real timer, so the search itself is irrelevant); one in five runs real searches under a cost model, and one sim in twenty lets the engine think long (1-5 us per node, budgets of 0.2-2.5 s: 10^5..10^6 nodes per move, time scrambles with a large increment or comfortable clocks), where additionally the virtual time from go to bestmove must not exceed the mover's remaining time by more than the overrun C07 allows (4096 nodes). Each go is followed by a twin with the opponent's clock and increment replaced and the tokens permuted. Oracle: a budget is armed; budget <= mover's remaining time; < when any time remains; twin arms the same budget; in sims whose searches really run, bestmove comes within the mover's remaining time. Evaluations = clocked go commands judged; distinct by (side, remaining, increment, token order).".into(),
         extra: serde_json::Map::new(),
         assumptions: vec!["the oracle reads wtime/btime/winc/binc as 'token followed by its value, in any order'; nothing is asserted about the allocation formula".into()],
         exhaustive: None,
